@@ -81,7 +81,7 @@ def check_queues(ctx, ex):
             ctx.check("C12.Q", f"{name}:{which}:{form}", ok,
                       f"{name} accesses the request queue {which} as `{form}`; the oldest-request discipline allows only append at the tail, peek [0], pop(0) and len()", repo.loc(m, n),
                       sample={"function": name, "queue": which, "form": form})
-    ctx.anchor("C12.Q", "uses of the request dictionaries", uses, 6)
+    ctx.anchor("C12.Q", "uses of the request dictionaries", uses, 4)
     # pending responses
     puses = 0
     for name, fn in sorted(ex.methods.items()):
@@ -192,8 +192,9 @@ def check_keys(ctx, ex):
         for n in A.body_nodes(fn):
             if isinstance(n, ast.Subscript) and A.is_self_attr(n.value) and n.value.attr in REQ:
                 dicts.add(n.value.attr)
-                if isinstance(n.slice, ast.Tuple) and len(n.slice.elts) == 2:
-                    found = [terminal(e) for e in n.slice.elts]
+                sl_ = A.single_defs(fn).get(n.slice.id, n.slice) if isinstance(n.slice, ast.Name) else n.slice  # the key may be built first and named
+                if isinstance(sl_, ast.Tuple) and len(sl_.elts) == 2:
+                    found = [terminal(e) for e in sl_.elts]
         prod[fname] = found
         ctx.check("C12.D", f"{fname}:appends-to-{which}", dicts == {which}, f"{fname} files its request under {sorted(dicts)}; expected {which}", repo.loc(m, fn))
         ctx.check("C12.K", f"{fname}:key", found == ["remote_node_id", "purpose_id"], f"{fname} files its request under key {found}; the consumer looks it up under (remote_node_id, purpose_id)", repo.loc(m, fn),
@@ -252,18 +253,35 @@ def check_keys(ctx, ex):
     if hl is None:
         raise AnalysisError("_handle_last_epr_pair not found")
     ctx.fn("Executor._handle_last_epr_pair")
+    # the function is executed abstractly for (pairs left, creator?) and the pops it performs are recorded
+    pcmd, pcre, pkey = A.param_names(hl)[1:4]
+    CRE, RCV = G.Sym("_epr_create_requests"), G.Sym("_epr_recv_requests")
     retire = {}
-    guard_ok = False
-    for st in hl.body:
-        if isinstance(st, ast.If):
-            guard_ok = A.norm(st.test) == "epr_cmd_data.pairs_left==0"
-            for s2 in st.body:
-                if isinstance(s2, ast.If) and A.norm(s2.test) == "is_creator":
-                    for pol, blk in ((True, s2.body), (False, s2.orelse)):
-                        for s3 in blk:
-                            for n in ast.walk(s3):
-                                if isinstance(n, ast.Subscript) and A.is_self_attr(n.value) and n.value.attr in REQ:
-                                    retire[pol] = (n.value.attr, A.norm(n.slice))
+    pops_when_left = 0
+    try:
+        for left in (0, 1, 2):
+            for creator in (True, False):
+                got = []
+
+                def on_call(c, env_, got=got):
+                    if isinstance(c.func, ast.Attribute) and c.func.attr == "pop" and isinstance(c.func.value, ast.Subscript):
+                        try:
+                            base = G.peval(c.func.value.value, env_)
+                        except Unknown:
+                            base = None
+                        idx = [A.norm(a_) for a_ in c.args]
+                        got.append((base.typename if isinstance(base, G.Sym) else None, A.norm(c.func.value.slice), idx))
+
+                env = {f"{pcmd}.pairs_left": left, pcre: creator, "self._epr_create_requests": CRE, "self._epr_recv_requests": RCV}
+                G.run_block(A.strip_docstring(hl.body), env, on_call)
+                if left == 0:
+                    retire[creator] = (got[0][0], got[0][1]) if len(got) == 1 and got[0][2] == ["0"] else tuple(got)
+                else:
+                    pops_when_left += len(got)
+    except Unknown as ex_:
+        retire = {"error": str(ex_)}
+    guard_ok = pops_when_left == 0 and all(isinstance(v_, tuple) and len(v_) == 2 and isinstance(v_[0], str) for v_ in retire.values()) and len(retire) == 2
+    retire = {k_: (v_[0], "request_key" if v_[1] == pkey else v_[1]) if isinstance(v_, tuple) and len(v_) == 2 else v_ for k_, v_ in retire.items()}
     ctx.check("C12.D", "_handle_last_epr_pair:role-selects-same-dictionary", retire == {True: ("_epr_create_requests", "request_key"), False: ("_epr_recv_requests", "request_key")},
               f"retirement pops {retire}; expected creator -> create requests, receiver -> recv requests, under the same request key", repo.loc(m, hl), sample={"retire": retire})
     ctx.check("C12.A", "_handle_last_epr_pair:retire-iff-no-pairs-left", guard_ok, "the request is not retired exactly when pairs_left == 0", repo.loc(m, hl))
@@ -540,11 +558,51 @@ EXECUTOR_ROLES = {
 }
 
 
+def inline_queue_locals(fn):
+    """q = <request container or its alias>[key]  (q bound once)  ->  the uses of q read the container entry directly.
+    The entry is a list object: appending to / popping from / indexing q is appending to / popping from / indexing the queue."""
+    import copy
+    multi = A.assigned_names(fn)
+    cont_alias = {k for k, vs in multi.items() if vs and all(v is not None and A.is_self_attr(v) and v.attr in REQ for v in vs)}
+    folds = {}
+    for k, vs in multi.items():
+        if len(vs) == 1 and isinstance(vs[0], ast.Subscript) and not isinstance(vs[0].slice, ast.Slice):
+            base = vs[0].value
+            if (A.is_self_attr(base) and base.attr in REQ) or (isinstance(base, ast.Name) and base.id in cont_alias):
+                folds[k] = vs[0]
+    if not folds:
+        return
+
+    class R(ast.NodeTransformer):
+        def visit_Name(self, n):
+            if n.id in folds and isinstance(n.ctx, ast.Load):
+                return ast.copy_location(copy.deepcopy(folds[n.id]), n)
+            return n
+
+    def strip(stmts):
+        out = []
+        for st in stmts:
+            for field in ("body", "orelse", "finalbody"):
+                sub = getattr(st, field, None)
+                if isinstance(sub, list) and sub and isinstance(sub[0], ast.stmt):
+                    setattr(st, field, strip(sub) or [ast.Pass()])
+            if isinstance(st, ast.Assign) and len(st.targets) == 1 and isinstance(st.targets[0], ast.Name) and st.targets[0].id in folds:
+                continue
+            out.append(R().visit(st))
+        return out
+
+    fn.body = strip(fn.body)
+    ast.fix_missing_locations(fn)
+
+
 def normalise_executor(ctx, ex):
     """name the locals of the executor's EPR functions by role (see nqsa/roles.py); done once per run"""
     if getattr(ctx, "_c12_roles_done", False):
         return
     ctx._c12_roles_done = True
+    for name in ("_do_create_epr", "_do_recv_epr", "_extract_epr_info", "_handle_last_epr_pair"):
+        if ex.methods.get(name) is not None:
+            inline_queue_locals(ex.methods[name])
     for name, pats in EXECUTOR_ROLES.items():
         fn = ex.methods.get(name)
         if fn is not None:
